@@ -8,8 +8,11 @@ package main
 //   B1  x == false, x != true  ->  !x          x == true, x != false  ->  x         (x of type bool)
 //   B2  !(a == b) -> a != b    !(a != b) -> a == b    !(a < b) -> a >= b  (and >, <=, >=: integers)    !!a -> a
 //   B3  parentheses around an identifier, a call, a selector, a unary expression, or a whole condition are dropped
-//   I1  if v := e; c { A } [else B]   ->   v := e; if c { A } [else B]      when the name v occurs nowhere else in
-//       the enclosing function (so hoisting the declaration changes no binding)
+//   A1  x := f(p) (also x, y := f(p), g(q)) with f one of the pure predicates isFromAll / isToAll / validateStructOrMap,
+//       p a parameter of the enclosing function that is never assigned, x never assigned again: x is replaced by f(p)
+//   S1  switch T { case A, B: S1…; case C: S2… } without default / init / fallthrough / break, T a call without
+//       arguments on a variable, x.Kind(), every case body but the last leaving the enclosing block (return,
+//       continue): -> if T == A || T == B { S1… }; if T == C { S2… }
 //   G1  directly in a loop body:  if c { continue }; REST   ->   if !c { REST }      (REST = the rest of the body)
 //   H1  a private helper function that is NOT one of the functions known at the time the extractors were written
 //       and is called exactly once in the file is inlined at its call site, for the two call shapes
@@ -49,7 +52,7 @@ var c15KnownFuncs = func() map[string]bool {
 // ---------------------------------------------------------------- a small rewriting engine
 
 type c15rw struct {
-	expr func(e ast.Expr) ast.Expr          // post-order hook on expressions (nil: identity)
+	expr func(e ast.Expr) ast.Expr                // post-order hook on expressions (nil: identity)
 	list func(l []ast.Stmt, loop bool) []ast.Stmt // post-order hook on statement lists (loop: the list is a loop body)
 }
 
@@ -643,6 +646,146 @@ func c15nInlineStmt(s ast.Stmt, helpers map[string]*c15nHelper, caller *ast.Func
 	return keep
 }
 
+// A1: is the statement x := f(p) / x, y := f(p), g(q) with pure predicates on never-assigned parameters, the
+// variables never assigned again
+func c15nPureAlias(fn *ast.FuncDecl, as *ast.AssignStmt) bool {
+	if as.Tok != token.DEFINE || len(as.Lhs) != len(as.Rhs) {
+		return false
+	}
+	assignedElsewhere := func(name string) bool {
+		n := 0
+		ast.Inspect(fn.Body, func(x ast.Node) bool {
+			switch y := x.(type) {
+			case *ast.AssignStmt:
+				for _, e := range y.Lhs {
+					if c15nIdent(e, name) {
+						n++
+					}
+				}
+			case *ast.IncDecStmt:
+				if c15nIdent(y.X, name) {
+					n++
+				}
+			case *ast.UnaryExpr:
+				if y.Op == token.AND && c15nIdent(y.X, name) {
+					n += 2
+				}
+			case *ast.RangeStmt:
+				if c15nIdent(y.Key, name) || c15nIdent(y.Value, name) {
+					n++
+				}
+			}
+			return true
+		})
+		return n > 0
+	}
+	params := map[string]bool{}
+	for _, fl := range fn.Type.Params.List {
+		for _, n := range fl.Names {
+			params[n.Name] = true
+		}
+	}
+	for k := range as.Lhs {
+		id, ok := as.Lhs[k].(*ast.Ident)
+		if !ok || id.Name == "_" {
+			return false
+		}
+		// the only assignment to the variable is this definition
+		n := 0
+		ast.Inspect(fn.Body, func(x ast.Node) bool {
+			if y, ok := x.(*ast.AssignStmt); ok {
+				for _, e := range y.Lhs {
+					if c15nIdent(e, id.Name) {
+						n++
+					}
+				}
+			}
+			return true
+		})
+		if n != 1 {
+			return false
+		}
+		call, ok := as.Rhs[k].(*ast.CallExpr)
+		if !ok || len(call.Args) != 1 {
+			return false
+		}
+		f, ok := call.Fun.(*ast.Ident)
+		if !ok || !(f.Name == "isFromAll" || f.Name == "isToAll" || f.Name == "validateStructOrMap") {
+			return false
+		}
+		arg, ok := call.Args[0].(*ast.Ident)
+		if !ok || !params[arg.Name] || assignedElsewhere(arg.Name) {
+			return false
+		}
+	}
+	return true
+}
+
+// S1
+func c15nSwitchToIfs(sw *ast.SwitchStmt) ([]ast.Stmt, bool) {
+	if sw.Init != nil || sw.Tag == nil || len(sw.Body.List) == 0 {
+		return nil, false
+	}
+	call, ok := sw.Tag.(*ast.CallExpr)
+	if !ok || len(call.Args) != 0 {
+		return nil, false
+	}
+	sel, ok := call.Fun.(*ast.SelectorExpr)
+	if !ok {
+		return nil, false
+	}
+	if _, ok := sel.X.(*ast.Ident); !ok || sel.Sel.Name != "Kind" {
+		return nil, false
+	}
+	var out []ast.Stmt
+	for i, c := range sw.Body.List {
+		cc := c.(*ast.CaseClause)
+		if cc.List == nil || len(cc.Body) == 0 || c15nHasJumpTok(cc.Body, token.BREAK) || c15nHasJumpTok(cc.Body, token.FALLTHROUGH) {
+			return nil, false
+		}
+		if i < len(sw.Body.List)-1 {
+			switch y := cc.Body[len(cc.Body)-1].(type) {
+			case *ast.ReturnStmt:
+			case *ast.BranchStmt:
+				if y.Tok != token.CONTINUE {
+					return nil, false
+				}
+			default:
+				return nil, false
+			}
+		}
+		var cond ast.Expr
+		for _, v := range cc.List {
+			t := ast.Expr(&ast.BinaryExpr{X: sw.Tag, Op: token.EQL, Y: v})
+			if cond == nil {
+				cond = t
+			} else {
+				cond = &ast.BinaryExpr{X: cond, Op: token.LOR, Y: t}
+			}
+		}
+		out = append(out, &ast.IfStmt{Cond: cond, Body: &ast.BlockStmt{List: cc.Body}})
+	}
+	return out, true
+}
+
+func c15nHasJumpTok(l []ast.Stmt, tok token.Token) bool {
+	found := false
+	for _, s := range l {
+		ast.Inspect(s, func(x ast.Node) bool {
+			switch y := x.(type) {
+			case *ast.FuncLit:
+				return false
+			case *ast.BranchStmt:
+				if y.Tok == tok {
+					found = true
+				}
+			}
+			return true
+		})
+	}
+	return found
+}
+
 // ---------------------------------------------------------------- the pass
 
 func c15Normalize(f *ast.File) {
@@ -656,30 +799,30 @@ func c15Normalize(f *ast.File) {
 		r.list = func(l []ast.Stmt, loop bool) []ast.Stmt {
 			var out []ast.Stmt
 			for i := 0; i < len(l); i++ {
+				if sw, ok := l[i].(*ast.SwitchStmt); ok {
+					if ifs, ok := c15nSwitchToIfs(sw); ok {
+						out = append(out, ifs...)
+						continue
+					}
+				}
+				if as, ok := l[i].(*ast.AssignStmt); ok && c15nPureAlias(fn, as) {
+					sub := map[string]ast.Expr{}
+					for k, e := range as.Lhs {
+						sub[e.(*ast.Ident).Name] = as.Rhs[k]
+					}
+					rest := c15nSubst(append([]ast.Stmt{}, l[i+1:]...), sub)
+					return append(out, r.list(rest, loop)...)
+				}
 				is, ok := l[i].(*ast.IfStmt)
 				if !ok {
 					out = append(out, l[i])
 					continue
 				}
 				is.Cond = c15nStrip(is.Cond)
-				// I1: hoist the init statement when its names occur nowhere else in the function
-				if as, ok := is.Init.(*ast.AssignStmt); ok && as.Tok == token.DEFINE {
-					fresh := true
-					for _, e := range as.Lhs {
-						id, isId := e.(*ast.Ident)
-						if !isId || (id.Name != "_" && c15nCount(fn, id.Name) != c15nCount(is, id.Name)) {
-							fresh = false
-						}
-					}
-					if fresh {
-						out = append(out, as)
-						is.Init = nil
-					}
-				}
 				// G1: a bare guard `if c { continue }` directly in a loop body
 				if loop && is.Init == nil && is.Else == nil && len(is.Body.List) == 1 && i+1 < len(l) {
 					if br, ok := is.Body.List[0].(*ast.BranchStmt); ok && br.Tok == token.CONTINUE && br.Label == nil {
-						rest := append([]ast.Stmt{}, l[i+1:]...)
+						rest := r.list(append([]ast.Stmt{}, l[i+1:]...), true)
 						out = append(out, &ast.IfStmt{Cond: c15nBoolExpr(c15nNegate(is.Cond)), Body: &ast.BlockStmt{List: rest}})
 						return out
 					}
